@@ -617,7 +617,7 @@ fn run_model(ctx: &mut Ctx, inits: Vec<(String, Sys)>, depth: u8, dfs: bool, thr
 fn sweep(ctx: &mut Ctx) {
     let seed = ctx.seed;
     let tier = ctx.tier;
-    let max_mlen = tier.pick(66usize, 130);
+    let max_mlen = tier.pick(130usize, 300);
     let adlens: Vec<Option<usize>> = match tier {
         Tier::Quick => vec![None, Some(0), Some(1), Some(15), Some(16), Some(17), Some(33)],
         Tier::Thorough => {
